@@ -6,6 +6,7 @@ import OrbitModel.Proofs.StoreReach
 import OrbitModel.Proofs.CrashExample
 import OrbitModel.Proofs.CacheReach
 import OrbitModel.Proofs.LoadChecked
+import OrbitModel.Proofs.WriteKeeps
 /-!
 # C05 — acknowledged writes and replicated entries survive restart and crashes
 
@@ -145,5 +146,34 @@ theorem reload_under_an_ended_context_reported_success_before_the_fix :
     LoadExample.listing (Store.loadChecked LoadExample.acl (LoadExample.fresh 4)
       (LoadExample.fetchN LoadExample.chain4 (-1)) (-1)) = .ok [1, 2, 3, 4] :=
   load_reported_success_over_nothing_before_the_fix
+
+/-- **a local write never forgets what the cache pointed to** (after the `fix:` commit, finding F33) —
+for every store state, in particular a store opened with `Load(n)` or `LoadFromSnapshot` that does
+not hold its cached local head: every cached local head is still cached after `AddOperation`, or the
+log holds it; and on a store that holds its cached local heads the cache written is `[e]` as before -/
+theorem write_never_forgets_cached_heads (acl : Acl) (s : Store) (mk : Nat → List Nat → Entry) :
+    (∀ h ∈ s.localHeads.getD [], h ∈ (s.addOp acl mk).1.localHeads.getD [] ∨
+      has (s.addOp acl mk).1.log.entries h = true) ∧
+    ((∀ x ∈ s.localHeads.getD [], has s.log.entries x = true) → s.addOp acl mk = s.addOp0 acl mk) :=
+  ⟨addOp_keeps_cached acl s mk, addOp_eq_addOp0 acl s mk⟩
+
+/-- **a write never shrinks what the cache reaches** (what `Load(-1)` rebuilds after the next restart),
+whatever part of the persisted log the store holds -/
+theorem write_never_shrinks_what_the_cache_reaches {acl : Acl} {U : List Entry} (hU : HashDet U)
+    (hM : ClockMono U) {s : Store} {mk : Nat → List Nat → Entry} (hG : Good U s.log)
+    (hw : WriteOk acl U s.log mk) :
+    ∀ x, ReachU U s.cachedHeads x → ReachU U (s.addOp acl mk).1.cachedHeads x :=
+  addOp_reach_mono hM hG hw hU
+
+/-- Refutation witness for the tree before that repair: a store that loaded a snapshot taken at entry
+3 while its cache named the later acknowledged write 5; a write (entry 6, parent 3) replaced
+`_localHeads` by `[6]`: nothing led to 5 any more, and 4 and 5 were gone after the next restart
+(replayed on the real store: corpus/C05/f33). Now 5 stays cached. -/
+theorem write_after_snapshot_load_forgot_later_writes_before_the_fix :
+    open LoadExample in
+    (afterSnapshot.addOp0 acl w6).1.localHeads = some [6] ∧
+    has (afterSnapshot.addOp0 acl w6).1.log.entries 5 = false ∧
+    (afterSnapshot.addOp acl w6).1.localHeads = some [6, 5] :=
+  LoadExample.write_on_partial_store_witness
 
 end Orbit.C05
